@@ -278,7 +278,17 @@ def explore(chk: Check, tier: str, seed: int, workers: int, runs=None, wall=None
                         pending = {}
                         break
             finally:
-                ex.shutdown(wait=False, cancel_futures=True)
+                if broken:
+                    # a broken pool never recovers; make sure none of its workers outlives it (the CLI leaves through
+                    # os._exit, so nothing would reap them, and they would keep our stdout open)
+                    for proc in list(getattr(ex, "_processes", {}).values()):
+                        try:
+                            proc.kill()
+                        except Exception:
+                            pass
+                    ex.shutdown(wait=False, cancel_futures=True)
+                else:
+                    ex.shutdown(wait=True)
             if not broken:
                 break
             if len(total["lost_batches"]) > max(3, len(batches) // 20):
